@@ -89,9 +89,10 @@ structure PrecTables where
 
 /-- the tables as they stand in /repo HEAD -/
 def PrecTables.code : PrecTables where
-  binary := [(.single '.', 9), (.single '^', 6), (.single '*', 6), (.single '/', 6), (.single '+', 5), (.single '-', 5),
-             (.single '<', 4), (.dual '<' '=', 4), (.single '>', 4), (.dual '>' '=', 4), (.single '=', 4), (.dual '!' '=', 4)]
-  other := [(.dcolon, 8), (.lsq, 8), (.kw .is, 4), (.kw .isNot, 4), (.kw .in, 4), (.kw .notIn, 4), (.kw .and, 2), (.kw .or, 1)]
+  -- listed in the order `harness tables` emits them, so that `PrecTables.code = Generated.precTables` is one `decide`
+  binary := [(.single '*', 6), (.single '+', 5), (.single '-', 5), (.single '.', 9), (.single '/', 6), (.single '<', 4),
+             (.single '=', 4), (.single '>', 4), (.single '^', 6), (.dual '!' '=', 4), (.dual '<' '=', 4), (.dual '>' '=', 4)]
+  other := [(.kw .and, 2), (.kw .or, 1), (.kw .is, 4), (.kw .isNot, 4), (.kw .in, 4), (.kw .notIn, 4), (.lsq, 8), (.dcolon, 8)]
   unary := [.single '-']
 
 def lookupOp (l : List (Operator × Int)) (o : Operator) : Option Int := (l.find? (·.1 == o)).map (·.2)
